@@ -2,7 +2,7 @@
 # usage: bp.sh <pending-name>  : alarms of every property on one pending benign patch
 cd "$(dirname "$0")/.."
 d=benign_pending/$1
-[ -d "$d" ] || d=benign/$1
+[ -d "$d" ] || d=benign_more/$1; [ -d "$d" ] || d=benign/$1
 for id in C01 C02 C03 C04 C05 C06 C07 C08 C09 C10 C11 C12 C13 C14 C15 C16 C17 C18 C19; do
   out=$(./bin/pgocheck -prop $id -noseeds -patch $d/patch.diff 2>&1); e=$?
   if [ $e != 0 ]; then echo "== $1 $id"; echo "$out" | grep -A2 "^VIOLATED\|^UNDECIDED\|^ANCHOR-LOST\|mutate:\|left alone" | cut -c1-330 | head -${2:-30}; fi
